@@ -44,7 +44,7 @@ func c15TemporalTexts() []struct{ kind, text, class string } {
 	}
 	times := []string{"00", "10", "23", "24", "10:00", "10:59", "10:60", "10:30:00", "10:30:59", "10:30:60", "23:59:59", "24:00:00"}
 	fracs := []string{"", ".0", ".25", ".250", ".2500", ".25000", ".123456", ".999", ".9999"}
-	offs := []string{"", "Z", "+05:30", "-11:00", "+14:00", "-00:00", "+00:00"}
+	offs := []string{"", "Z", "+05:30", "-11:00", "+14:00", "-00:00", "+00:00", "-00:30", "+00:30", "-03:30", "-11:59"}
 	for _, t := range times {
 		for _, f := range fracs {
 			if f != "" && strings.Count(t, ":") != 2 {
